@@ -11,6 +11,8 @@ var registry = map[string]func(*checks.Run) int{
 	"C06": checks.CheckC06,
 	"C07": checks.CheckC07,
 	"C08": checks.CheckC08,
+	"C09": checks.CheckC09,
+	"C10": checks.CheckC10,
 	"C11": checks.CheckC11,
 	"C01": checks.CheckC01,
 	"C02": checks.CheckC02,
